@@ -289,6 +289,14 @@ def answerQuery (s : CState) (j : Json) : Json :=
         onlyFields v ["user"]
         let u ← (← reqField v "user") |> asStr
         pure (Json.mkObj [("ok", Json.arr ((queryUnstakeRequests s u).map jReq).toArray)])
+      | "all_unstake_requests" => do
+        onlyFields v ["start_after", "limit"]
+        let rs := queryAllRequests s (← optMap v "start_after" asU64) (← optMap v "limit" asU32)
+        pure (Json.mkObj [("ok", Json.arr (rs.map jReq).toArray)])
+      | "all_unstake_requests_v2" => do
+        onlyFields v ["start_after", "limit"]
+        let rs := queryAllRequests s (← optMap v "start_after" asU64) (← optMap v "limit" asU32)
+        pure (Json.mkObj [("ok", Json.arr (rs.map fun r => Json.arr #[.str r.user, jNat r.batch, jStrNat r.amount]).toArray)])
       | "ibc_queue" => do
         onlyFields v ["start_after", "limit"]
         let ps := queryIbcQueue s (← optMap v "start_after" asU64) (← optMap v "limit" asU32)
